@@ -881,7 +881,7 @@ def generate(repo):
 
     out = HEADER.format(tool='consteval.py', src='parse.c (eval, eval2, eval3, eval_truth, is_const_expr, const_expr, write_buf, consumers), type.c (is_integer, is_flonum), chibicc.h (NodeKind, TypeKind)')
     out += 'import ChibiVerif.Model.HostInt\n'
-    out += 'set_option maxRecDepth 4096\n'
+    out += 'set_option maxRecDepth 4096\nset_option linter.unusedVariables false\n'
     out += 'namespace ChibiVerif.Gen.ConstEval\nopen ChibiVerif.Host\n\n'
     out += '/-- `NodeKind` of chibicc.h -/\ninductive NodeKind where\n' + ''.join(f'  | {k}\n' for k in node_kinds) + '  deriving DecidableEq, Repr\n\n'
     out += '/-- `TypeKind` of chibicc.h -/\ninductive TypeKind where\n' + ''.join(f'  | {k}\n' for k in type_kinds) + '  deriving DecidableEq, Repr\n\n'
